@@ -152,6 +152,49 @@ def check(run: Run, prog: Program, model: Model, tier: str) -> None:
             run.holds("ARM", c, site, f"-> {want}()(value) pinning the given value; kinds agree with declaration and validator", nontrivial=True)
         for nmsg in sorted(set(notes)):
             run.note("LADDER", c, site, nmsg)
+    # ---------------- CROSS-MEMBER: the schema of member j is the conversion of member j, whatever came before it
+    # (two members deep, comprehensions evaluated as the loops they are: a table keyed by the bare value hands the
+    # schema of an earlier EQUAL member - 1 / 1.0 / True - to a later one)
+    for kind in ("list", "dict"):
+        it = Interp(prog, model, unroll=2, max_depth=9)
+        it.max_recursion = 2            # type: ignore[attr-defined]
+        it.comp_as_loop = True          # type: ignore[attr-defined]
+
+        def run2(i: Interp) -> V:
+            return i.call_function(fn, [Sym("value", kind, ("param", "value"), exact=True)], {})
+        ps2 = it.run_paths(run2, max_paths=4000)
+        c = f"from_native(<{kind}>): member j converted from member j"
+        probs: List[str] = []
+        seen = 0
+        for p in ps2:
+            if p.outcome != "return" or not isinstance(p.value, SchemaV) or not isinstance(p.value.props, PropsV):
+                continue
+            pv = p.value.props.vals
+            members: List[V] = []
+            if kind == "list" and isinstance(pv.get("elements"), ListV):
+                members = [x for x in pv["elements"].items if isinstance(x, V)]
+            elif kind == "dict" and isinstance(pv.get("keys"), DictV):
+                members = [tv.items[0] for _, tv in pv["keys"].pairs() if isinstance(tv, TupleV) and tv.items]
+            if len(members) != 2:
+                continue
+            seen += 1
+            tag = "elem" if kind == "list" else "val"
+            for j, m in enumerate(members):
+                mk, other = m.key(), f"{tag}{1 - j}@"
+                mine_ = f"{tag}{j}@"
+                if isinstance(m, Term) and m.op == "getitem" and isinstance(m.args[0], DictV) and isinstance(m.args[1], V) \
+                        and not isinstance(m.args[1], TupleV):
+                    probs.append(f"the schema of member {j} is looked up in a table keyed by the bare value ({m.args[1].key()[:40]}): "
+                                 "an earlier equal member of another kind (1 / 1.0 / True) answers for it")
+                elif other in mk and mine_ not in mk:
+                    probs.append(f"the schema of member {j} is the one built for member {1 - j} ({mk[:50]})")
+        if probs:
+            run.violated("CROSS-MEMBER", c, fn.loc, "; ".join(sorted(set(probs)))[:300],
+                         witness="from_native([1, 1.0]) == schema.list([schema.int(1), schema.int(1)]), which rejects [1, 1.0]")
+        elif seen:
+            run.holds("CROSS-MEMBER", c, fn.loc, f"on {seen} two-member paths each member schema derives from its own member", nontrivial=True)
+        else:
+            run.undecided("CROSS-MEMBER", c, fn.loc, "no two-member return path")
     run.floor("ARM", 9)
     run.floor("ONLY-VALUEERROR", 11)
     run.floor("FINAL", 4)
@@ -161,14 +204,21 @@ def check(run: Run, prog: Program, model: Model, tier: str) -> None:
     _key_identity(run, prog, model, fn, results.get("dict", []))
 
 
-def _memo(run: Run, prog: Program, model: Model, fn: Any, rule: str = "MEMO") -> None:
+def _memo(run: Run, prog: Program, model: Model, fn: Any, rule: str = "MEMO", roots: Optional[List[Any]] = None,
+          prefixes: Tuple[str, ...] = ("d42.utils",)) -> None:
     """MEMO: the conversion depends on the *kind* of its argument (isinstance ladder; True/1/1.0 are equal and hash
     alike), so no function on the from_native path may be memoised by equality: lru_cache / cache without
     typed=True, or a dict keyed by the value."""
     import ast as _ast
     from ..flow import call_closure, dotted, function_local_imports
-    funcs = call_closure(prog, [fn])
-    funcs = [f for f in funcs if f.module.name.startswith("d42.utils")]
+    funcs = call_closure(prog, [fn] + list(roots or []))
+    funcs = [f for f in funcs if f.module.name.startswith(prefixes)]
+    if roots:
+        # only what lies on a path from a root to the conversion (the roots' other callees are not conversions)
+        reach = {f.qualname for f in call_closure(prog, [fn])}
+        def leads(f: Any) -> bool:
+            return f.qualname in reach or any(g.qualname in reach for g in call_closure(prog, [f]))
+        funcs = [f for f in funcs if leads(f)]
     bad = 0
     for f in funcs:
         for d in f.node.decorator_list:
